@@ -25,7 +25,21 @@ import (
 	"time"
 )
 
-const verifDir = "/verif"
+// verifDir is the root of the verification tree: the parent of the bin/
+// directory this executable lives in (so a snapshot of /verif works too).
+var verifDir = func() string {
+	if d := os.Getenv("VERIF_DIR"); d != "" {
+		return d
+	}
+	if exe, err := os.Executable(); err == nil {
+		if d := filepath.Dir(filepath.Dir(exe)); fileExists(filepath.Join(d, "worker", "main.go")) {
+			return d
+		}
+	}
+	return "/verif"
+}()
+
+func fileExists(p string) bool { _, err := os.Stat(p); return err == nil }
 
 type violation struct {
 	Class     string `json:"class"`
